@@ -12,6 +12,9 @@ daughter links are set mutually and each schnitz is added to the lineage once.
 R19.4 no phantom event: no path of the lineage loop samples an event while Lambda == 0 may hold;
 every break carries a rule/event index.
 R19.5 every volume change in the loop is followed by the non-positive test before the next row.
+R19.6 own state: inside SimulateSingleCell the state buffer (self.c_current_state) is never read
+before it has been loaded, on that path, from the cell being simulated (its stored state or the
+model's initial state); every reported row therefore describes this cell and not the previous one.
 """
 import ast
 
@@ -445,6 +448,26 @@ def check_loop(ctx):
            'events are sampled from the propensity buffer whose sum is Lambda, over all propensities', '')
 
 
+OWN_SOURCES = ('v.py_get_state().copy()', 'self.interface.get_initial_state().copy()')
+
+
+def check_own_state(ctx):
+    f = ctx.fn('lineage:LineageSSASimulator.SimulateSingleCell')
+    cell = f.args.args[1].arg
+    reads, _ = paths.definite_assignment(f.body, set(), {'self.c_current_state'})
+    problems = ['self.c_current_state is read at %s before it is loaded from the cell' % ctx.loc('lineage', n) for _, n in reads]
+    loads = [n for n in ast.walk(f) if isinstance(n, ast.Assign) and any(src(t) == 'self.c_current_state' for t in n.targets)]
+    if not loads:
+        raise AnalysisError('SimulateSingleCell: the state loading assignment was not found')
+    want = tuple(x.replace('v.', cell + '.') for x in OWN_SOURCES)
+    for n in loads:
+        if src(n.value).replace(' ', '') not in want:
+            problems.append('state buffer loaded from `%s` (%s)' % (src(n.value), ctx.loc('lineage', n)))
+    ctx.ob('R19.6-own-state', 'SimulateSingleCell', not problems, ctx.loc('lineage', f),
+           "the state buffer is loaded from the simulated cell's own state (or the model's initial state) before any read of it on every path",
+           '; '.join(problems[:3]))
+
+
 def check(ctx):
     prog = ctx.prog
     for m in ('types', 'types.pxd', 'simulator', 'simulator.pxd', 'lineage', 'lineage.pxd', 'random'):
@@ -460,6 +483,7 @@ def check(ctx):
     check_daughters(ctx, fl)
     check_splitter_choice(ctx)
     check_loop(ctx)
+    check_own_state(ctx)
     ctx.floor('R19.1-conservation', 3)
     ctx.floor('R19.1-volume', 3)
     ctx.floor('R19.3-links', 2)
